@@ -27,6 +27,12 @@ func newTokenizer(kind string) tokenizers.ITokenizer {
 		return csv.NewCsvTokenizer()
 	case "mustache":
 		return mtok.NewMustacheTokenizer()
+	case "generic+cpp":
+		// the generic tokenizer configured with the library's C++ comment state ('/*..*/' and '//..')
+		t := generic.NewGenericTokenizer()
+		t.SetCommentState(generic.NewCppCommentState())
+		t.SetCharacterState('/', '/', t.CommentState())
+		return t
 	}
 	panic("unknown tokenizer " + kind)
 }
